@@ -10,7 +10,10 @@ DEFAULT_RULE = (
     "to a fixpoint of the abstract joint state); after every event the property's predicates are evaluated. "
     "evaluations = predicate evaluations of this property; a case is non-trivial when the predicate's antecedent "
     "held (the evaluation could have failed); distinct_nontrivial = number of distinct (abstract joint state "
-    "fingerprint before the event, event, predicate) triples among the non-trivial ones, unioned over all shards."
+    "fingerprint before the event, event, predicate) triples among the non-trivial ones, unioned over all shards. "
+    "Threaded legs (conc-*): one evaluation = one predicate over the merged call / return history of one run on 3-6 OS threads "
+    "(counters conc[..] report runs, distinct interleaving signatures, wake-ups delivered, stale wake-ups ignored, cancelled / completed "
+    "futures, logical deadlock evaluations, watchdogs, discarded runs); sanitizer legs count their reports."
 )
 RULE = {
     "C16": "One probe program per (public type, trait fact). evaluations = probe programs judged; a case is non-trivial when it produced a verdict "
